@@ -373,6 +373,44 @@ fn emit_walk(sink: &mut Sink, r: &mut Rng, scratch: &str) {
         let extra = got.keys().find(|k| !want.contains_key(k)).map(|k| format!("{}: scanner counted a directory that is ignored/excluded", nodes[*k].rel));
         pred = Some(diff.or(extra).unwrap_or_else(|| "directory statistics differ".to_string()));
     }
+    // several scan targets in one call: two disjoint sub-directories of different depth, in either
+    // order; every directory below them must get the figures of the whole-tree scan (depth is the
+    // distance from the project root whichever target comes first)
+    let cands: Vec<usize> = want.keys().copied().filter(|i| *i != 0).collect();
+    let mut multi = "";
+    if cands.len() >= 2 {
+        let a = cands[r.below(cands.len())];
+        let bb = cands[r.below(cands.len())];
+        let (ra, rb) = (nodes[a].rel.clone(), nodes[bb].rel.clone());
+        let below = |x: &str, top: &str| x == top || x.starts_with(&format!("{top}/"));
+        if a != bb && !below(&ra, &rb) && !below(&rb, &ra) {
+            multi = if nodes[a].depth == nodes[bb].depth { "+two-targets" } else { "+two-targets-depths-differ" };
+            let old = std::env::current_dir().unwrap();
+            std::env::set_current_dir(&root).unwrap();
+            let scan2 = ctx.scanner.scan_all_with_structure(&[PathBuf::from(&ra), PathBuf::from(&rb)], ctx.structure_scan_config.as_ref());
+            std::env::set_current_dir(old).unwrap();
+            match scan2 {
+                Ok(s2) => {
+                    let want2: BTreeMap<usize, (usize, usize, usize)> = want.iter().filter(|(k, _)| below(&nodes[**k].rel, &ra) || below(&nodes[**k].rel, &rb)).map(|(k, v)| (*k, *v)).collect();
+                    let mut got2: BTreeMap<usize, (usize, usize, usize)> = BTreeMap::new();
+                    for (p, st) in &s2.dir_stats {
+                        let rel = p.to_string_lossy().replace('\\', "/");
+                        if let Some(i) = by_rel.get(rel.as_str()) {
+                            got2.insert(*i, (st.file_count, st.dir_count, st.depth));
+                        } else if pred.is_none() {
+                            pred = Some(format!("targets {ra} {rb}: statistics for unknown directory {rel}"));
+                        }
+                    }
+                    if pred.is_none() && got2 != want2 {
+                        let diff = want2.iter().find(|(k, v)| got2.get(k) != Some(v)).map(|(k, v)| format!("targets `{ra}` `{rb}`: {}: true (files,dirs,depth) {:?}, scanner {:?}", nodes[*k].rel, v, got2.get(k)));
+                        let extra = got2.keys().find(|k| !want2.contains_key(k)).map(|k| format!("targets `{ra}` `{rb}`: {} is reported but lies under neither target (or is excluded)", nodes[*k].rel));
+                        pred = Some(diff.or(extra).unwrap_or_else(|| "directory statistics differ".to_string()));
+                    }
+                }
+                Err(e) => { if pred.is_none() { pred = Some(format!("scan of two targets: {e}")); } }
+            }
+        }
+    }
     let mut req = format!("walk {}", nodes.len());
     for (i, n) in nodes.iter().enumerate() {
         req += &format!(" {} {} {} {} {} {} {}", i, opt_num(n.parent), n.depth, n.kind, b(ignored(n)), b(sx(n)), b(cx(n)));
@@ -383,7 +421,7 @@ fn emit_walk(sink: &mut Sink, r: &mut Rng, scratch: &str) {
         request: req,
         implementation,
         pred: pred.map_or_else(|| "ok".to_string(), |p| format!("FAIL {p}")),
-        tag: format!("walk/{}/{}{}", if use_gitignore { "ignore-backend" } else { "walkdir-backend" }, if excludes.is_empty() { "" } else if from_cli.iter().any(|c| *c) { "excl-cli" } else { "excl" }, if cexcl.is_empty() { "" } else { "+cexcl" }),
+        tag: format!("walk/{}/{}{}", if use_gitignore { "ignore-backend" } else { "walkdir-backend" }, if excludes.is_empty() { "" } else if from_cli.iter().any(|c| *c) { "excl-cli" } else { "excl" }, format!("{}{multi}", if cexcl.is_empty() { "" } else { "+cexcl" })),
     });
 }
 
